@@ -184,7 +184,7 @@ def main():
     run = Run("C05", "other")
     fps = [100, 1] if run.quick else [100, 0, 1, 2, 5]
     items = []
-    for pid, text, goals in families.corpus() + families.repo_benchmarks(run.quick, run.seed, limit_quick=12) + \
+    for pid, text, goals in families.corpus() + families.corpus("corpus_neg") + families.repo_benchmarks(run.quick, run.seed, limit_quick=12) + \
             families.generated(run.quick, run.seed, count=(80 if run.quick else 800)) + families.symbolic_templates(run.quick, run.seed):
         items.append({"id": pid, "text": text, "fp_iterations": fps, "K": 4 if run.quick else 6})
     if run.args.only:
